@@ -1077,7 +1077,8 @@ func (d *Decoder) decodeTypeParameter(valueJSON any, results typeDecodingResults
 	// TODO: getOpt
 	var typeBound cadence.Type
 	typeBoundObj, ok := obj[typeBoundKey]
-	if ok {
+	// NOTE: the encoder writes null for a type parameter without a type bound
+	if ok && typeBoundObj != nil {
 		d.pushPath(propertyPathElement(typeBoundKey))
 		typeBound = d.decodeType(typeBoundObj, results)
 		d.popPath()
